@@ -317,11 +317,13 @@ func run(c Case, k *ev.Case) *ev.Failure {
 	time.Sleep(time.Duration(10*c.Cfg.PingMs) * time.Millisecond)
 	led := w.Broker.Ledger()
 	discIdx := map[int]int{}
+	discSeq := map[int]uint64{} // the client's write sequence number of its Disconnect, per connection
 	lastDisc := -1
 	for _, e := range led {
 		if e.In && e.Kind == "Disconnect" && !strings.HasPrefix(e.Msg.(*message.Disconnect).ResultString, "sim:") {
 			if _, ok := discIdx[e.Inc]; !ok {
 				discIdx[e.Inc] = e.Idx
+				discSeq[e.Inc] = e.WSeq
 			}
 			lastDisc = e.Idx
 		}
@@ -330,7 +332,10 @@ func run(c Case, k *ev.Case) *ev.Failure {
 		if !e.In {
 			continue
 		}
-		if di, ok := discIdx[e.Inc]; ok && e.Idx > di && e.Kind != "Ping" && e.Kind != "Pong" {
+		// "after": in the order of the client's writes (the reliable and the datagram side of a connection are read by two broker
+		// goroutines, so the order of the ledger says nothing across them - an earlier version used it and raised a false alarm
+		// under load)
+		if _, ok := discIdx[e.Inc]; ok && e.WSeq > discSeq[e.Inc] && e.Kind != "Ping" && e.Kind != "Pong" {
 			return ev.Failf("C10.2 message-after-disconnect", "the client sent %s on connection %d after its Disconnect", e.Kind, e.Inc).WithHistory(hist())
 		}
 		if lastDisc >= 0 && e.Idx > lastDisc && e.Kind == "ConnectRequest" {
